@@ -11,22 +11,27 @@ func VerifC02_q_stickyAcrossRestart() {
 }
 
 
-// BOUND: topology 1 (4 IPs, two node subnets); a deployment with replicas 1 or 2 whose pods use a reserving policy (immutable, never) or a named pool p1 without size; all replicas bound; then a surge rolling update of one pod: the replacement is created and filtered before or after the old pod is deleted and its event handled (either order, a rejected filter is retried after the event; one API-server / store call of the replacement's last Filter may fail cleanly at a symbolic position 0..4 and a Filter that answered with an error is retried); the replacement must be bound with an IP the deployment already held and the deployment never holds more IPs than replicas
+// BOUND: topology 1 (4 IPs, two node subnets); a deployment with replicas 1 or 2 whose pods use a reserving policy (immutable, never) or a named pool p1 (without a Pool object, or with a Pool object of size replicas+1); all replicas bound; then a surge rolling update of one pod: the replacement is created and filtered before or after the old pod is deleted and its event handled (either order, a rejected filter is retried after the event; one API-server / store call of the replacement's last Filter may fail cleanly at a symbolic position 0..4 and a Filter that answered with an error is retried); the replacement must be bound with an IP the deployment already held and the deployment never holds more IPs than replicas
 func VerifC02_q_rollingUpdate() {
 	w := vpNewWorld(1, false)
 	if err := w.configure(); err != nil {
 		return
 	}
 	replicas := nondetChoice(2) + 1
+	limit := replicas
 	w.setDeployment(int32(replicas))
 	policy, pool := "", ""
-	switch nondetChoice(3) {
+	switch nondetChoice(4) {
 	case 0:
 		policy = "immutable"
 	case 1:
 		policy = "never"
 	case 2:
 		pool = "p1"
+	case 3: // a Pool object defines the pool's size (room for one more address than the deployment needs)
+		pool = "p1"
+		w.setPool("p1", replicas+1)
+		limit = replicas + 1 // the bound of a sized pool is its size
 	}
 	prefix := "dp_ns_app_"
 	if pool != "" {
@@ -56,12 +61,13 @@ func VerifC02_q_rollingUpdate() {
 		}
 	}
 	w.syncListers()
-	verifAssert("C02/app-ip-count", count() <= replicas, "the deployment holds more IPs than replicas after the initial rollout")
+	verifAssert("C02/app-ip-count", count() <= limit, "the deployment holds more IPs than replicas after the initial rollout")
 	old := vpPodNameOf(vpKindDp, 0)
 	repl := vpPodNameOf(vpKindDp, 7)
 	w.createPod(vpMakePod(repl, "U"+repl, vpKindDp, policy, pool, ""))
 	w.syncListers()
 	var approved []string
+	freshIsRight := false
 	endOld := func() {
 		w.deletePod(old)
 		w.syncListers()
@@ -72,7 +78,9 @@ func VerifC02_q_rollingUpdate() {
 	if nondetBool() {
 		// surge: the replacement is filtered while the old pod still exists
 		approved, _ = w.filter(repl, "n1", "n2", "n3")
-		verifAssert("C02/app-ip-count", count() <= replicas, "filtering a replacement pod made the deployment hold more IPs than replicas")
+		verifAssert("C02/app-ip-count", count() <= limit, "filtering a replacement pod made the deployment hold more IPs than replicas")
+		// a sized pool with room left serves the surge pod at once: nothing is in reserve yet, a fresh address is right
+		freshIsRight = limit > replicas && len(approved) > 0
 		endOld()
 	} else {
 		endOld()
@@ -88,7 +96,7 @@ func VerifC02_q_rollingUpdate() {
 			approved, _ = w.filter(repl, "n1", "n2", "n3")
 		}
 	}
-	verifAssert("C02/app-ip-count", count() <= replicas, "the deployment holds more IPs than replicas during a rolling update")
+	verifAssert("C02/app-ip-count", count() <= limit, "the deployment holds more IPs than replicas during a rolling update")
 	if len(approved) == 0 {
 		return
 	}
@@ -97,9 +105,16 @@ func VerifC02_q_rollingUpdate() {
 	}
 	verifReach("replacement-bound")
 	for _, ip := range vpBoundIPs(w.pods[repl]) {
-		verifAssert("C02/replacement-takes-held-ip", held[ip], "the replacement pod of a deployment with a reserving policy / named pool was bound with a fresh IP instead of one the deployment held")
+		verifAssert("C02/replacement-takes-held-ip", held[ip] || freshIsRight, "the replacement pod of a deployment with a reserving policy / named pool was bound with a fresh IP instead of one the deployment held")
 	}
-	verifAssert("C02/app-ip-count", count() <= replicas, "the deployment holds more IPs than replicas after a rolling update")
+	verifAssert("C02/app-ip-count", count() <= limit, "the deployment holds more IPs than replicas after a rolling update")
+	own := 0
+	for _, e := range w.dump() {
+		if e.Allocated && e.Key == vpKeyOf(w.pods[repl]) {
+			own++
+		}
+	}
+	verifAssert("C02/replacement-one-ip", own == len(vpBoundIPs(w.pods[repl])), "the replacement pod's key holds more addresses than the pod was bound with")
 	w.checkAll("C02", "rolling update")
 }
 
